@@ -1061,6 +1061,88 @@ func restoreBody(c *mc.Ctx, item int) mc.Verdict {
 	return v
 }
 
+// insideBody: "with the system dictionary pushed on the dictionary stack" — the
+// dictionary stack INSIDE the section is the one before `eexec` plus systemdict,
+// whatever stood on top before (systemdict itself, userdict, the same
+// dictionary twice).  The encrypted part closes 0..3 dictionaries, opens 0..1
+// and then defines a key; afterwards the key must be in exactly the dictionary a
+// simulation of the dictionary stack says, and in no other.
+var insideOuters = [][]string{{}, {"d0"}, {"d0", "d1"}, {"systemdict"}, {"userdict"}, {"d0", "systemdict"}, {"systemdict", "systemdict"}, {"d0", "d0"}, {"systemdict", "d1"}}
+var insideBodies = []string{"", "end ", "end end ", "end end end ", "1 dict begin ", "end 1 dict begin ", "end end 1 dict begin ", "end end d1 begin "}
+
+func insideBody(c *mc.Ctx, item int) mc.Verdict {
+	nb := len(insideBodies)
+	body := insideBodies[item%nb]
+	cont := (item / nb) % 4
+	outer := insideOuters[item/nb/4]
+	// simulate
+	stack := append([]string{"systemdict", "userdict"}, outer...)
+	stack = append(stack, "systemdict")
+	fresh := 0
+	legal := true
+	for _, tok := range strings.Fields(body) {
+		switch tok {
+		case "end":
+			if len(stack) <= 2 {
+				legal = false
+			} else {
+				stack = stack[:len(stack)-1]
+			}
+		case "begin":
+			// operand decided by the preceding tokens
+		case "1", "dict":
+		case "d1":
+			stack = append(stack, "d1")
+		}
+	}
+	if strings.Contains(body, "1 dict begin") {
+		stack = append(stack, "fresh")
+		fresh++
+	}
+	if !legal {
+		return mc.Pass("n/a:would-pop-userdict", false)
+	}
+	target := stack[len(stack)-1]
+	p := plaintext{name: "inside:" + body, enc: body + "/seedkey 42 def mark currentfile closefile\n"}
+	pre := "/d0 2 dict def /d1 2 dict def "
+	for _, d := range outer {
+		pre += d + " begin "
+	}
+	prog := append([]byte(pre), buildSection(p, cont, "\n", defaultBinPrefix, nil)...)
+	prog = append(prog, "\ncleartomark systemdict /seedkey known userdict /seedkey known d0 /seedkey known d1 /seedkey known"...)
+	describe := func() string {
+		return fmt.Sprintf("dictionaries opened before eexec %v, encrypted part `%s` (%s): %s", outer, p.enc, contNames[cont], show(prog))
+	}
+	intp := postscript.NewInterpreter()
+	err := intp.Execute(bytes.NewReader(prog))
+	c.Step()
+	fail := func(class, detail string) mc.Verdict {
+		v := mc.Fail("C05:dictstack-inside:"+class, detail+" | "+describe())
+		v.Render = describe()
+		return v
+	}
+	if err != nil {
+		return fail("error", "unexpected error "+err.Error())
+	}
+	if len(intp.DictStack) != 2+len(outer) {
+		return fail("depth", fmt.Sprintf("dictionary stack depth %d after the section, %d before it", len(intp.DictStack), 2+len(outer)))
+	}
+	if len(intp.Stack) != 4 {
+		return fail("stack", fmt.Sprintf("operand stack depth %d, expected 4 booleans", len(intp.Stack)))
+	}
+	for i, d := range []string{"systemdict", "userdict", "d0", "d1"} {
+		want := postscript.Boolean(d == target)
+		if intp.Stack[i] != want {
+			return fail("definition-landed-elsewhere", fmt.Sprintf("`%s /seedkey known` is %v; the definition belongs into %s (dictionary stack inside the section: %v)", d, intp.Stack[i], target, stack))
+		}
+	}
+	v := mc.Pass("defined-in:"+target, true)
+	if c.Render() {
+		v.Render = describe()
+	}
+	return v
+}
+
 type bytesWriter []byte
 
 func (b *bytesWriter) Write(p []byte) (int, error) { *b = append(*b, p...); return len(p), nil }
@@ -1160,6 +1242,8 @@ func main() {
 				Describe: func(i int) string { return fmt.Sprintf("%+v", pi[i]) },
 				CrashKey: func(int) string { return "C05:position:crash" },
 				Rule:     "item = (plaintext, container of 4, gap of 2, trailer of 4); choices: every offset from 8 bytes before `eexec` to 8 bytes after the first token following the encrypted part x {padding comment so that the 512-byte refill boundary falls there, source delivering exactly that many bytes first}; differential oracle; non-trivial = final state differs from a fresh interpreter's"})
+			fams = append(fams, mc.Family{Name: "dictstack-inside-section", Items: len(insideBodies) * 4 * len(insideOuters), Body: insideBody, Budget: budget,
+				Rule: "dictionaries opened before `eexec` (none; one or two fresh ones; systemdict; userdict; a fresh one then systemdict; systemdict twice; the same fresh one twice; systemdict then a fresh one) x encrypted part that closes 0..3 dictionaries, then opens none / a new one / an old one, then defines a key x 4 containers; a simulation of the dictionary stack (the one before eexec plus systemdict) says which dictionary receives the definition: afterwards the key must be known there and nowhere else, and the stack depth restored; cases that would close userdict are skipped; non-trivial = all others"})
 			fams = append(fams, mc.Family{Name: "dictstack-restore", Items: len(restorePlains) * 4 * 3, Body: restoreBody, Budget: budget,
 				Rule: "item = (what the encrypted part does to the dictionary stack: nothing, 1..3 extra `end`, 1..2 extra `begin`, mixtures) x container (binary, hex lower/upper/mixed) x 0..2 extra dictionaries open when eexec is entered; after the section the dictionary stack must be exactly the one before it (depth and contents: names defined in the outer dictionaries resolve again); non-trivial = every case"})
 			fams = append(fams, mc.Family{Name: "prefix-byte-sweep", Items: 4 * 256, Body: prefixSweepBody, Budget: budget,
